@@ -606,6 +606,8 @@ where
                         Err(broadcast::error::RecvError::Lagged(_)) => {
                             let history = loop {
                                 if let Some(history) = refill() {
+                                    #[cfg(rip_verif)]
+                                    rip_kernel::verif::point("sse.live.refilled");
                                     break history;
                                 }
                                 tokio::task::yield_now().await;
